@@ -427,10 +427,13 @@ class Check:
         cov["repo_lib_hash"] = tree_hash(os.path.join(REPO, "lib"))
         if force_rc == 2:
             ev["coverage"]["explanation"] = "run aborted: infrastructure/model failure"
-        os.makedirs(os.path.join(ROOT, "evidence"), exist_ok=True)
+        # evidence describes a run against /repo itself; runs against a scratch copy (seeded / benign self-tests, COVFIE_SRC set)
+        # must not overwrite it
+        evdir = os.path.join(ROOT, "evidence") if os.path.realpath(REPO) == "/repo" else os.path.join(BUILD, "evidence-scratch")
+        os.makedirs(evdir, exist_ok=True)
         if not cov["samples"]:
             cov["samples"] = ["(no sample recorded)"]
-        json.dump(ev, open(os.path.join(ROOT, "evidence", self.pid + ".json"), "w"), indent=1, default=str)
+        json.dump(ev, open(os.path.join(evdir, self.pid + ".json"), "w"), indent=1, default=str)
         for k, t in self.known_hits:
             print("KNOWN-FINDING: property=%s %s [%s]" % (self.pid, t, k))
         for k, rp in real_v:
